@@ -192,6 +192,32 @@ example (ε : String → Option Path) (s t : T) (q : Path) (hs : opLeaves t = tr
     (by right; simp [rootField, hr])
   exact ⟨mr, h1, h2⟩
 
+/-- **C11 for a checked case**: whenever the driver answers `1` to a `gen` request, the model of
+`find_matches` returns a match rooted at the aligned node with exactly the expected bindings. -/
+theorem c11_checked_case (p s : T) (rho : List (String × String)) (eps : List (String × Path))
+    (al : List (Path × Path)) (h : genCase p s rho eps al = true) :
+    ∃ mr ∈ findMatches p s, mr.2 = dictGet (trimGo p []).2 al ∧
+      (∀ b ∈ mr.1.binds, b.id = rhoF rho b.key) ∧ (∀ kv ∈ mr.1.exps, dictGet kv.1 eps = some kv.2) ∧
+      IsEmbedding p s mr.1 mr.2 := by
+  simp only [genCase, Bool.and_eq_true] at h
+  obtain ⟨ho, h⟩ := h
+  cases hP : dictGet (trimGo p []).2 al with
+  | none => simp [hP] at h
+  | some P =>
+    simp only [hP, Bool.and_eq_true] at h
+    obtain ⟨hpre, h⟩ := h
+    have hPeq : (trimRoot s).2 ++ P.drop (trimRoot s).2.length = P :=
+      List.prefix_iff_eq_append.1 (List.isPrefixOf_iff_prefix.1 hpre)
+    cases ht : (trimRoot s).1.at? (P.drop (trimRoot s).2.length) with
+    | none => simp [ht] at h
+    | some t =>
+      simp only [ht, Bool.and_eq_true, Bool.or_eq_true, decide_eq_true_eq] at h
+      have hgen := genChk_sound _ _ _ _ h.1
+      rw [← hPeq] at hgen
+      obtain ⟨mr, h1, h2, h3, h4, h5⟩ := c11_generalised_fragment_matches (rhoF rho) (epsF eps) p s _ t ho ht hgen h.2
+      exact ⟨mr, h1, by rw [h2, hPeq], h3, h4, h5⟩
+
+
 /-! ### C11's last sentence without the restriction to patterns taken from the program: open finding
 
 "Generalising a matching pattern this way never loses the match", read for ANY matching pattern, is false of
